@@ -22,7 +22,8 @@ EXPLANATION = (
     "the synthetic source edge is added iff in_degree == 0 or the node is a declared start, the sink edge iff out_degree == 0 or the "
     "node is a declared end (boolean normal form); (R5) the greedy solution is rejected unless every constraint reaches its coverage; (R6) constraint edges enter the "
     "trusted-for-safety set only under a test implying coverage == 1 (with partial coverage they need not be in a solution), and the caller's "
-    "ignore / constraint / start-end lists are never written. "
+    "ignore / constraint / start-end lists are never written; (R7) for node-weighted input the constraint / start / end translators are total "
+    "(no element of the user's list is dropped on a non-raising path) and follow the expansion scheme. "
     "NOT decided: that the optimum is taken over exactly the constrained solutions; 'and nothing else' for ignored elements."
 )
 DECIDED = ["constraint families present and complete", "ignoring is the only way an edge is skipped", "scale 0 implies ignored",
@@ -269,3 +270,6 @@ def check(prog: Program, rep):
     semantic.trusted_edge_providers(prog, rep, "C10.R6")
     from rules.c18 import class_inputs_not_mutated
     class_inputs_not_mutated(prog, rep, "C10.R6", K_MODELS, params=("elements_to_ignore", "subpath_constraints", "subset_constraints", "additional_starts", "additional_ends"))
+    rep.rule("C10.R7", "node-weighted constraints, starts and ends are translated totally and by the expansion scheme (C11.R3)", floor=14)
+    from rules.common import node_mode_plumbing
+    node_mode_plumbing(prog, rep, "C10.R7")
